@@ -12,6 +12,8 @@ def main():
     tdir = os.path.join(HERE, "twins")
     ids = [a for a in sys.argv[1:]] or sorted(os.listdir(tdir))
     props = [c["property_id"] for c in json.load(open(os.path.join(HERE, "MANIFEST.json")))["checks"]]
+    if os.environ.get("VF_PROPS"):
+        props = [p for p in props if p in os.environ["VF_PROPS"].split(",")]
     from multiprocessing import Pool
     with Pool(min(16, max(1, len(ids)))) as pool:
         res = pool.map(one, [(tid, tdir, props) for tid in ids])
